@@ -4,6 +4,7 @@
 #include "vf/core.hpp"
 #include "vf/items.hpp"
 #include "vf/hll_model.hpp"
+#include "vf/ref_icon.hpp"
 #include <binomial_bounds.hpp>
 #include <theta_sketch.hpp>
 #include <theta_union.hpp>
@@ -114,10 +115,17 @@ void prop_icon(const Case& cs) {
   for (int64_t d = -50; d <= 50; ++d) { int64_t c = static_cast<int64_t>(thr) + d; if (c > 0) cvals.push_back(static_cast<uint64_t>(c)); }
   std::sort(cvals.begin(), cvals.end()); cvals.erase(std::unique(cvals.begin(), cvals.end()), cvals.end());
   double prev = -1, prev_inc = -1; uint64_t prevc = 0;
+  uint64_t idx = 0, nref = 0;
   for (uint64_t c : cvals) {
     double e = compute_icon_estimate(lg_k, static_cast<uint32_t>(c));
     VF_CHECK(std::isfinite(e), "icon-finite", "lg_k " << int(lg_k) << " C " << c << ": " << e);
     VF_CHECK(e >= static_cast<double>(c), "icon-ge-c", "lg_k " << int(lg_k) << " C " << c << ": estimate " << e << " below the coupon count");
+    // against the independent reference (inverse of the expected coupon count): every 16th grid point and the whole neighbourhood of the switch
+    if (c >= 2 && ((idx++ & 15) == 0 || std::fabs(static_cast<double>(c) - thr) <= 51)) {
+      const double r = vf::ref_icon(lg_k, static_cast<double>(c));
+      VF_CHECK(std::fabs(e - r) <= vf::ref_icon_tolerance(r), "icon-vs-reference", "lg_k " << int(lg_k) << " C " << c << ": estimate " << e << ", the cardinality whose expected coupon count is C is " << r << " (tolerance " << vf::ref_icon_tolerance(r) << ")");
+      ++nref;
+    }
     if (prev >= 0) {
       VF_CHECK(e >= prev, "icon-monotone", "lg_k " << int(lg_k) << ": estimate decreases from C=" << prevc << " (" << prev << ") to C=" << c << " (" << e << ")");
       // continuity (no jump at the polynomial/exponential switch): one step may not be much larger than the step before it
@@ -129,6 +137,7 @@ void prop_icon(const Case& cs) {
   VF_CHECK(compute_icon_estimate(lg_k, 0) == 0.0 && compute_icon_estimate(lg_k, 1) == 1.0, "icon-small", "icon(0)/icon(1)");
   for (int bad : {3, 27}) { bool t = false; try { compute_icon_estimate(static_cast<uint8_t>(bad), 10); } catch (const std::out_of_range&) { t = true; } VF_CHECK(t, "icon-reject-lgk", "lg_k " << bad << " accepted"); }
   vf::count("grid_points", cvals.size());
+  vf::count("icon_reference_points", nref);
   vf::nontrivial();
 }
 void enum_icon(std::function<bool(const Case&)> run) {
